@@ -261,8 +261,8 @@ def pair_in_direction(pos, j, k, dist, dvec, tol, bandwidth, exact, info):
     if dist > 0.0:
         c_abs = abs(s_prod) / dist
         if c_abs == 0.0:
-            # exactly perpendicular: the angle is pi/2 > fl(pi/2) >= tol
-            in_angle = False
+            # exactly perpendicular: the angle is acos(0) = fl(pi/2); inside only for a tolerance beyond a right angle
+            in_angle = math.acos(0.0) < tol
             info["perp_pairs"] += 1
         elif c_abs < 1.0:
             ang = math.acos(c_abs)
